@@ -176,6 +176,15 @@ def check_parent_protocol(prog: Program, rep: Report) -> None:
                    "event_time_started -recv-> suspended -continue[,send]-> out_state_started -recv-> idle; suspended -> idle "
                    "without communication): a receive in the wrong stage reads the wrong object or blocks forever, a missing "
                    "receive leaves a stale out-state in the pipe")
+            # a receive must be unconditional inside its stage block (a skipped receive leaves a stale message in the pipe)
+            for k, node in ops.get(x, []):
+                if k == "recv":
+                    nested = any(isinstance(st, ast.If) and any(y is node for y in ast.walk(st)) and not any(y is node for y in ast.walk(st.test))
+                                 for st in b.stmts)
+                    rep.ob("R20.2-receive-unconditional", not nested, Loc(MPM, node.lineno, "MultiProcessMediator.run"),
+                           f"recv on `{x}` in stage {guard}",
+                           "in this stage the worker will send exactly one message; receiving it only under a further condition "
+                           "(e.g. only if it has already arrived) leaves it in the pipe, where it is later read as something else")
             # a send must follow its set() in the block
             seq = [k for k, _ in sorted(ops.get(x, []), key=lambda kv: (kv[1].lineno, kv[1].col_offset))]
             if "send" in seq:
@@ -407,6 +416,10 @@ MUTANTS = [
          "            if self._event_handler_with_shortest_event_time is not None:\n"
          "                self._scheduler.trash_event(self._event_handler_with_shortest_event_time)\n", "R20.1"),
 ]
+MUTANTS.append(Edit("trash loop: drain only if already arrived", MPM,
+                    "                    pipe.recv()\n                    self._event_handlers_state[pipe] = EventHandlerState.idle",
+                    "                    if pipe.poll():\n                        pipe.recv()\n                    self._event_handlers_state[pipe] = EventHandlerState.idle",
+                    "R20.2"))
 TWINS = [
     Edit("rename deque", MPM, "pipes_time_received", "pipes_ready_for_out_state", every=True),
     Edit("post_run with local", MPM, "        for process in self._os_processes:\n            if process.is_alive():",
